@@ -142,8 +142,8 @@ class C18Property:
         ctx = m1.Ctx()
         fails, notes = [], []
         all_syms = [m1.to_sympy(s, ctx) for s in corr.FREE + corr.IDX]
-        for k in range(n):
-            c = corr.gen_case(rng, stats)
+        todo = corr.shape_cases(rng, ctx, stats) + [corr.gen_case(rng, stats) for _ in range(n)]
+        for k, c in enumerate(todo):
             real = m1.to_sympy(c["term"], ctx)
             reqs = [[(m1.to_sympy(a, ctx), m1.to_sympy(b, ctx)) for a, b in sub["pairs"]] for sub in c["subs"]]
             try:
@@ -156,7 +156,8 @@ class C18Property:
             fails += f
             notes += nt
             chk.count(("oracle", k) if (c["depth"] >= 2 or len(c["top_idx"]) >= 2) else None)
-        chk.info("oracle_terms", n)
+        fails += oracle.float_pool_cases(rng)
+        chk.info("oracle_terms", len(todo))
         chk.info("oracle_input_distribution", stats)
         chk.info("oracle_excluded_cases_met", {"count": len(notes), "examples": notes[:4]})
         return fails
